@@ -217,16 +217,32 @@ def run(ctx):
         k = skey(e, memo)
         if pool.setdefault(k, e) is not e:
             ctx.violation("C06/identity/two-objects-one-structure", "two live objects for BVV(%d bits)" % size, {"value": hex(v), "size": size})
+    # strings: ordinary text, the bytes of the node framing, lone surrogates (legal in Python and Z3 strings) next to the text
+    # that spells their escape, and text that differs only in how it could be escaped
+    twins = [("\ud800", "\\ud800"), ("\udfff", "\\udfff"), ("\udc80", "\x80"), ("é", "e\u0301"), ("\x00", "\\x00"), ("a", "a\x00"), ("", "\x00"),
+             ("\U0001f600", "\ud83d\ude00")]
+    svals = [t for pr in twins for t in pr]
     for rep in range(ctx.pick(100, 1000)):
-        sv = "".join(rng.choice(["a", "b", "\\", "<", ">", " ", "é", "中", "\x00", "0", "\n"]) for _ in range(rng.randrange(0, 5)))
+        svals.append("".join(rng.choice(["a", "b", "\\", "<", ">", " ", "é", "中", "\x00", "0", "\n", "\ud800", "u", "d", "8"]) for _ in range(rng.randrange(0, 6))))
+    sobjs = {}
+    for sv in svals:
         ctx.count(); nleaf += 1
         e = claripy.StringV(sv)
         if e.op != "StringV" or e.args[0] != sv:
-            ctx.violation("C06/StringV/value-differs-from-the-one-built", "StringV(%r) returned %r" % (sv, e.args), {"value": sv})
+            ctx.violation("C06/StringV/value-differs-from-the-one-built", "StringV(%r) returned a node holding %r" % (sv, e.args[0]), {"value": sv.encode("utf-8", "surrogatepass").hex()})
             continue
         keep_alive.append(e)
+        sobjs[sv] = e
         if pool.setdefault(skey(e, memo), e) is not e:
             ctx.violation("C06/identity/two-objects-one-structure", "two live objects for %r" % (e,), {"node": repr(e)})
+        elif len(ser_lines) < ctx.pick(6000, 60000):
+            r_ = ser_request(e)
+            if r_:
+                ser_lines.append(r_); ser_want.append(Base._ast_serialize(e.op, e.args, e.annotations, e.length).hex())
+    for a_, b_ in twins:
+        if a_ in sobjs and b_ in sobjs and (sobjs[a_] is sobjs[b_] or sobjs[a_].hash() == sobjs[b_].hash()):
+            ctx.violation("C06/StringV/different-strings-one-node", "StringV(%r) and StringV(%r) are the same node / share a hash" % (a_, b_),
+                          {"a": a_.encode("utf-8", "surrogatepass").hex(), "b": b_.encode("utf-8", "surrogatepass").hex()})
     # ---- (b2) nodes carrying several annotations, attached in different orders and in different ways
     apool = anno_pool()
     live = [z for z in keep_alive if isinstance(z, claripy.ast.BV | claripy.ast.Bool)] or [claripy.BVS("x", 32, explicit_name=True)]
